@@ -132,10 +132,19 @@ fn oracle(s: &ProgScene<X>, t: &Trace) -> Vec<Violation> {
     out
 }
 
+thread_local! {
+    /// the clients' weak sender / weak caller are the ones the actor's own context made
+    static CTX_MADE: std::cell::Cell<bool> = const { std::cell::Cell::new(false) };
+}
+
 fn make_case(progs: &[Vec<L>], mailbox: Mailbox, work: Work, interval_with: bool, stopper: bool, bound: Option<u32>) -> Case {
+    let ctx_made = CTX_MADE.with(|c| c.get());
     let mut clients = vec![];
     for (c, p) in progs.iter().enumerate() {
-        let ops: Vec<Op> = p.iter().enumerate().map(|(i, l)| to_op(*l, msg_id(c, i))).collect();
+        let mut ops: Vec<Op> = p.iter().enumerate().map(|(i, l)| to_op(*l, msg_id(c, i))).collect();
+        if ctx_made {
+            ops.insert(0, Op::AdoptCtx);
+        }
         clients.push(ClientSpec { init: FULL.to_vec(), ops });
     }
     if stopper {
@@ -143,6 +152,9 @@ fn make_case(progs: &[Vec<L>], mailbox: Mailbox, work: Work, interval_with: bool
         clients.push(ClientSpec { init: vec![HInit::Addr], ops: vec![Op::Stop(H::Addr(0))] });
     }
     let mut role = RoleCfg { default_work: work, tick_work: work, ..RoleCfg::default() };
+    if ctx_made {
+        role.started_actions.push(Action::ShareCtxHandles);
+    }
     if stopper {
         // ... and whose stopped() hook takes a while: the mailbox is still the live actor's, the
         // parked senders stay parked until it has terminated
@@ -153,8 +165,9 @@ fn make_case(progs: &[Vec<L>], mailbox: Mailbox, work: Work, interval_with: bool
         role.started_actions.push(Action::IntervalWith { timer: 1, period: 1 });
     }
     let desc = format!(
-        "backpressure{} mailbox={} work={}y{}s iw={} stopper={} progs={}",
+        "backpressure{}{} mailbox={} work={}y{}s iw={} stopper={} progs={}",
         crate::progscene::variant_tag(),
+        if ctx_made { " [weak handles made by the actor's context]" } else { "" },
         mailbox.name(),
         work.yields,
         work.sleep,
@@ -254,6 +267,26 @@ fn plain_cases(tier: Tier) -> Vec<Case> {
             }
         }
     }
+    // a weak sender is a weak sender, whoever made it: the same through the handles the actor's
+    // own context mints (handed to other tasks)
+    CTX_MADE.with(|c| c.set(true));
+    for &mb in &mbs {
+        for &work in &works {
+            let w = [L::SendWSnd, L::CallWCal, L::ForceWSnd];
+            for n in 1..=3 {
+                for p in seqs(&w, n) {
+                    if !p.contains(&L::SendWSnd) || (n == 3 && p.iter().filter(|l| **l == L::SendWSnd).count() < 2) {
+                        continue;
+                    }
+                    v.push(make_case(&[p], mb, work, false, false, None));
+                }
+            }
+            v.push(make_case(&[vec![L::SendWSnd, L::SendWSnd], vec![L::SendWSnd]], mb, work, false, false, None));
+            v.push(make_case(&[vec![L::SendWSnd], vec![L::SendAddr, L::SendWSnd]], mb, work, false, true, None));
+            v.push(make_case(&[vec![L::SendWSnd, L::SendWSnd]], mb, work, true, false, None));
+        }
+    }
+    CTX_MADE.with(|c| c.set(false));
     if tier == Tier::Thorough {
         for &mb in &mbs {
             for &work in &works[..2] {
